@@ -64,19 +64,19 @@ def _relname(obj, model):
     return fn.split(".", 1)[1] if "." in fn else ""
 
 
-def _walk_dynamic(sp, model, acc):
-    """Inputs held inside dynamic (item) spaces below `sp`."""
-    for args, isp in sorted(sp.itemspaces.items(), key=repr):
-        _walk_dynamic_space(isp, model, acc)
+def _walk_dynamic(sp, model, acc, path):
+    """Inputs held inside dynamic (item) spaces below `sp`; item spaces are named by their arguments."""
+    for args, isp in sp.itemspaces.items():
+        _walk_dynamic_space(isp, model, acc, path + "[%r]" % (norm(args, model),))
 
 
-def _walk_dynamic_space(dsp, model, acc):
+def _walk_dynamic_space(dsp, model, acc, path):
     for n, c in dsp.cells.items():
         for k, val in _inputs(c, model):
-            acc.append((_relname(dsp, model), n, k, val))
-    for ch in dsp.named_spaces.values():
-        _walk_dynamic_space(ch, model, acc)
-    _walk_dynamic(dsp, model, acc)
+            acc.append((path, n, k, val))
+    for n, ch in dsp.named_spaces.items():
+        _walk_dynamic_space(ch, model, acc, path + "." + n)
+    _walk_dynamic(dsp, model, acc, path)
 
 
 def describe(m):
@@ -118,7 +118,7 @@ def describe(m):
             D[Q + ("refmode",)] = getattr(px, "refmode", None)
             D[Q + ("derived",)] = px.is_derived() if hasattr(px, "is_derived") else None
         acc = []
-        _walk_dynamic(s, m, acc)
+        _walk_dynamic(s, m, acc, _relname(s, m))
         D[P + ("space", "itemspace_inputs")] = sorted(acc, key=repr)
         for n, ch in s.named_spaces.items():
             dspace(ch, P + (n,))
@@ -290,6 +290,7 @@ def field_tag(path):
 
 
 # ---------------------------------------------------------------------------- case evaluation
+BASE = None     # scratch directory created and removed by the driver's main process (workers may be killed mid-case)
 
 def build(lines):
     ns = {"mx": mx, "Box": Box, "math": math}
@@ -361,7 +362,7 @@ def _cmp_files(f0, f1, stage, what, fails, tag):
                 fails.append(((stage, tag + ":text"), "%s: %s: contents of %s differ:\n%s\n---\n%s" % (stage, what, rel, ta[:600], tb[:600])))
 
 
-def evaluate(lines, eval_first=False, keep=None):
+def evaluate(lines, eval_first=False, light=False, chains=True):
     """Run the whole C04 contract on the model built by `lines`.
 
     Returns (status, failures); status in {'unbuildable', 'ok'}; failures = [(check tags, text)].
@@ -373,7 +374,7 @@ def evaluate(lines, eval_first=False, keep=None):
     except Exception as e:
         _close_all()
         return "unbuildable: " + _exc(e), fails
-    tmp = tempfile.mkdtemp(prefix="c04_")
+    tmp = tempfile.mkdtemp(prefix="c04_", dir=BASE)
     try:
         plan = v0 = None
         if eval_first:
@@ -390,6 +391,18 @@ def evaluate(lines, eval_first=False, keep=None):
         if str(m.path) != pdir:
             fails.append((("stage:write-dir", "path-not-set"), "model.path is %r after write(%r)" % (m.path, pdir)))
         _cmp_describe(d0, describe(m), "stage:write-dir", fails, prefix="write-alters")
+        if light:       # directory only: write, read under a new name, compare description and values (used while shrinking)
+            try:
+                r = mx.read_model(pdir, name="R_dir")
+            except Exception as e:
+                fails.append((("stage:read-dir", "read-raises"), "read_model(dir) raised " + _exc(e)))
+                return "ok", fails
+            _cmp_describe(d0, describe(r), "stage:read-dir", fails)
+            if plan is None:
+                plan = value_plan(m)
+                v0 = run_plan(m, plan)
+            _cmp_values(v0, run_plan(r, plan), "stage:read-dir", fails)
+            return "ok", fails
         try:
             m.zip(pzip)
         except Exception as e:
@@ -449,7 +462,7 @@ def evaluate(lines, eval_first=False, keep=None):
             _cmp_values(v0, run_plan(r, plan), "stage:read-" + label, fails)
         _cmp_describe(d0, describe(m), "stage:evaluate", fails, prefix="evaluation-alters")
         # ---- a copy written after evaluation: computed values must not come back as inputs
-        if "zip" in readers:
+        if "zip" in readers and chains:
             p4 = os.path.join(tmp, "evaluated.zip")
             try:
                 readers["zip"].zip(p4)
@@ -460,7 +473,7 @@ def evaluate(lines, eval_first=False, keep=None):
                 fails.append((("stage:read-evaluated", "read-raises"), "write/read after evaluation raised " + _exc(e)))
         # ---- chains: read the second generation, crossing containers
         for label, src in (("dir2", pdir2), ("zip2", pzip2)):
-            if not src:
+            if not src or not chains:
                 continue
             try:
                 r = mx.read_model(src, name="R_" + label)
